@@ -36,7 +36,7 @@ func (s *Stream) LogRecord(l plog.LogRecord) {
 		l.SetSpanID(s.SpanID())
 	}
 	if s.On("log.sevnum") {
-		l.SetSeverityNumber(plog.SeverityNumber(rapid.IntRange(0, 24).Draw(s.T, "sev")))
+		l.SetSeverityNumber(plog.SeverityNumber(rapid.SampledFrom([]int32{0, 1, 9, 24, 25, 255, 256, -1, 2147483647}).Draw(s.T, "sev")))
 	}
 	l.SetSeverityText(s.StrOpt("log.sevtext"))
 	if s.On("log.body") {
